@@ -398,7 +398,8 @@ impl SymExpr {
         match self {
             Self::Value(_) | Self::Var(_) => self.clone(),
             Self::Neg(expr) => match Arc::unwrap_or_clone(expr).simplify_canonical() {
-                SymExpr::Value(x) => SymExpr::Value(-x),
+                // nb. `-i32::MIN` is not representable.
+                SymExpr::Value(x) if x != i32::MIN => SymExpr::Value(-x),
                 SymExpr::Neg(inner) => Arc::unwrap_or_clone(inner),
                 expr => Self::Neg(expr.into()),
             },
@@ -409,7 +410,10 @@ impl SymExpr {
                 match (lhs, rhs) {
                     (SymExpr::Value(0), rhs) => rhs,
                     (lhs, SymExpr::Value(0)) => lhs,
-                    (SymExpr::Value(x), SymExpr::Value(y)) => SymExpr::Value(x + y),
+                    (SymExpr::Value(x), SymExpr::Value(y)) => match x.checked_add(y) {
+                        Some(sum) => SymExpr::Value(sum),
+                        None => SymExpr::Value(x) + SymExpr::Value(y),
+                    },
                     (lhs, SymExpr::Neg(rhs)) if lhs == *rhs => SymExpr::Value(0),
                     (lhs, rhs) => lhs + rhs,
                 }
@@ -420,7 +424,9 @@ impl SymExpr {
 
                 match (lhs, rhs) {
                     (lhs, SymExpr::Value(0)) => lhs,
-                    (SymExpr::Value(x), SymExpr::Value(y)) => SymExpr::Value(x - y),
+                    (SymExpr::Value(x), SymExpr::Value(y)) if x.checked_sub(y).is_some() => {
+                        SymExpr::Value(x - y)
+                    }
                     (lhs, rhs) if lhs == rhs => SymExpr::Value(0),
                     (lhs, rhs) => lhs - rhs,
                 }
@@ -432,7 +438,10 @@ impl SymExpr {
                 match (lhs, rhs) {
                     (SymExpr::Value(1), rhs) => rhs,
                     (lhs, SymExpr::Value(1)) => lhs,
-                    (SymExpr::Value(x), SymExpr::Value(y)) => SymExpr::Value(x * y),
+                    (SymExpr::Value(x), SymExpr::Value(y)) => match x.checked_mul(y) {
+                        Some(prod) => SymExpr::Value(prod),
+                        None => SymExpr::Value(x) * SymExpr::Value(y),
+                    },
                     (lhs, rhs) => lhs * rhs,
                 }
             }
@@ -443,11 +452,18 @@ impl SymExpr {
 
                 match (lhs, rhs) {
                     (lhs, SymExpr::Value(1)) => lhs,
-                    (SymExpr::Value(x), SymExpr::Value(y)) if y != 0 => SymExpr::Value(x / y),
+                    // nb. The quotient is `None` if `y` is zero or the result
+                    // overflows.
+                    (SymExpr::Value(x), SymExpr::Value(y)) if x.checked_div(y).is_some() => {
+                        SymExpr::Value(x / y)
+                    }
                     // x / b / c => x / (b * c)
                     (SymExpr::Div(lhs, c1), c2) => match (&*c1, c2) {
                         (SymExpr::Value(c1), SymExpr::Value(c2)) if *c1 != 0 && c2 != 0 => {
-                            (*lhs).clone() / SymExpr::Value(c1 * c2)
+                            match c1.checked_mul(c2) {
+                                Some(prod) => (*lhs).clone() / SymExpr::Value(prod),
+                                None => SymExpr::Div(lhs, SymExpr::Value(*c1).into()) / SymExpr::Value(c2),
+                            }
                         }
                         (c1, c2) => (*lhs).clone() / (c1.clone() * c2),
                     },
@@ -460,7 +476,7 @@ impl SymExpr {
 
                 match (lhs, rhs) {
                     (lhs, SymExpr::Value(1)) => lhs,
-                    (SymExpr::Value(x), SymExpr::Value(y)) if y != 0 => {
+                    (SymExpr::Value(x), SymExpr::Value(y)) if x.checked_div(y).is_some() => {
                         SymExpr::Value(div_ceil(x, y))
                     }
                     // x/x => 1
@@ -476,7 +492,11 @@ impl SymExpr {
                     // and c > 0.
                     (SymExpr::DivCeil(lhs, c1), c2) => match (&*c1, c2) {
                         (SymExpr::Value(c1), SymExpr::Value(c2)) if *c1 > 0 && c2 > 0 => {
-                            lhs.div_ceil(&SymExpr::Value(c1 * c2))
+                            match c1.checked_mul(c2) {
+                                Some(prod) => lhs.div_ceil(&SymExpr::Value(prod)),
+                                None => SymExpr::DivCeil(lhs, SymExpr::Value(*c1).into())
+                                    .div_ceil(&SymExpr::Value(c2)),
+                            }
                         }
                         (c1, c2) => lhs.div_ceil(&(c1.clone() * c2)),
                     },
